@@ -29,6 +29,10 @@ theorem trimStart_length_le (l : List Tok) : (trimStart l).length ≤ l.length :
   unfold trimStart
   exact (List.dropWhile_suffix _).length_le
 
+theorem trimStartNL_length_le (l : List Tok) : (trimStartNL l).length ≤ l.length := by
+  unfold trimStartNL
+  exact (List.dropWhile_suffix _).length_le
+
 theorem scanArgs_length (l : List Tok) : ∀ (cur : List Tok) (args : List (List Tok)) (d : Nat) (rest : List Tok)
     (as : List (List Tok)), scanArgs l cur args d = .ok (rest, as) → rest.length < l.length + 1 := by
   induction l with
@@ -50,7 +54,7 @@ theorem scanArgs_length (l : List Tok) : ∀ (cur : List Tok) (args : List (List
 /-- what `split_macro_args` leaves is shorter than what follows the opening parenthesis -/
 theorem splitArgs_length (remaining rest : List Tok) (as : List (List Tok))
     (h : splitArgs remaining = .ok (rest, as)) :
-    ∃ a b tail, trimStart remaining = ⟨.lparen, a, b⟩ :: tail ∧ rest.length ≤ tail.length := by
+    ∃ a b tail, trimStartNL remaining = ⟨.lparen, a, b⟩ :: tail ∧ rest.length ≤ tail.length := by
   unfold splitArgs at h
   split at h
   · rename_i a b tail heq
@@ -60,7 +64,7 @@ theorem splitArgs_length (remaining rest : List Tok) (as : List (List Tok))
 theorem splitArgs_length' (remaining rest : List Tok) (as : List (List Tok))
     (h : splitArgs remaining = .ok (rest, as)) : rest.length + 1 ≤ remaining.length := by
   obtain ⟨a, b, tail, heq, hl⟩ := splitArgs_length remaining rest as h
-  have := trimStart_length_le remaining
+  have := trimStartNL_length_le remaining
   rw [heq] at this
   simp only [List.length_cons] at this
   omega
@@ -461,7 +465,9 @@ theorem readArgs_ne_sub (m : Macro) (remaining : List Tok) : readArgs m remainin
       subst h
       exact splitArgs_ne_sub _ he
     · split
-      · split <;> (intro h; cases h)
+      · split
+        · split <;> (intro h; cases h)
+        · intro h; cases h
       · split <;> (intro h; cases h)
   · intro h; cases h
 
@@ -478,8 +484,10 @@ theorem readArgs_spec (m : Macro) (remaining rest : List Tok) (args : List (List
     · rename_i rest' args' hs
       split at h
       · split at h
-        · simp only [Except.ok.injEq, Prod.mk.injEq] at h
-          exact ⟨_, by rw [hs, h.1]⟩
+        · split at h
+          · simp only [Except.ok.injEq, Prod.mk.injEq] at h
+            exact ⟨_, by rw [hs, h.1]⟩
+          · cases h
         · cases h
       · split at h
         · cases h
@@ -749,7 +757,7 @@ theorem applyLoop_no_subOverflow (paste : Tok → Tok → Option Tok)
                           unfold parenAfter at hpa
                           rw [htr] at hpa
                           simp only [Option.some.injEq] at hpa
-                          have := trimStart_length_le (toks.drop (p + 1))
+                          have := trimStartNL_length_le (toks.drop (p + 1))
                           rw [htr] at this
                           simp only [List.length_cons, List.length_drop] at this
                           omega
